@@ -148,7 +148,7 @@ CLAIMED = {
         technique="contract-based deductive verification: WP/VC generation over go/ssa + SMT (z3/cvc5)"),
     "C19": dict(
         level="other",
-        text="Partial: the aggregation arms are verified as sequential processes over the channel the dispatcher feeds them. Proved "
+        text="Partial: the dispatcher (signals forwarded, every other row handed in order to every aggregation, channels closed at the end) and the aggregation arms are verified as sequential processes. Proved "
              "for every input history: count emits exactly one row whose value is the number of rows received; histogram never "
              "panics (also with no numeric value or interval 0), collects exactly the values that convert to numbers, and the tally "
              "sent for a bucket [b, b+i) is 1.0 added once per collected value v with b <= v < b+i; term consumes its whole input and "
